@@ -32,7 +32,7 @@ PROPS = {
         level_text='Verus proves every PartialEq impl between Seq/SeqSlice/&SeqSlice/Kmer (equal exactly when the bit views are equal; lemma: equal bits <=> equal length and symbols), the Hash impls against a ghost hasher log written from the property (content bits then length; a k-mer feeds the same log as its slice) and Borrow/AsRef consistency, generic in codec, K, storage and offset',
         level_note=B_NOTE + '; derived PartialEq on Seq/Kmer assumed field-wise; `== &str` paths are iterator glue covered by a bounded stand-in (labelled bounded)',
         technique='deductive verification (Verus) of extracted functions against contracts; ghost hasher log',
-        verus=[dict(name='c02', mode='T', roots=['slice.eq', 'lemma_eq', 'slice.hash', 'seq.hash', 'kmer.hash', 'seq.borrow', 'seq.as_ref', 'kmer.eq', 'kmer.unsafe_from'])],
+        verus=[dict(name='c02', mode='T', roots=['slice.eq', 'seq.eq_refs', 'lemma_eq', 'slice.hash', 'seq.hash', 'kmer.hash', 'seq.borrow', 'seq.as_ref', 'kmer.eq', 'kmer.unsafe_from'])],
         standin=True,
     ),
     'C03': dict(
